@@ -4,6 +4,7 @@ import (
 	"fmt"
 	"sort"
 	"strings"
+	"time"
 
 	"verif/internal/ank"
 )
@@ -23,6 +24,9 @@ type Verdict struct {
 }
 
 const ModelBudget = 40000
+
+// hangReported: a non-terminating run was reported by Judge in this process.
+var hangReported bool
 
 // canonTrace sorts maximal runs of entries produced by probes with negative ids
 // (multi-entry map loops: iteration order is unspecified).
@@ -53,8 +57,34 @@ func Judge(stmts []*N) *Verdict {
 		v.Excluded = base.Unspecified
 		return v
 	}
+	// every generated program terminates within the model's step budget (tiny programs): a run
+	// that is still going after 5 s is repeated alone with 30 s before it is called a hang. Once a
+	// hang has been reported in this process, later runs get 2 s and are excluded when they exceed it
 	host := NewHost()
-	val, err := host.Exec(v.Src)
+	first := 5 * time.Second
+	if hangReported {
+		first = 2 * time.Second
+	}
+	val, err, timedOut := host.ExecTimeout(v.Src, first)
+	if timedOut && hangReported {
+		v.Excluded = "did not terminate within 2 s (a hang was already reported in this process)"
+		return v
+	}
+	if timedOut {
+		host = NewHost()
+		val, err, timedOut = host.ExecTimeout(v.Src, 30*time.Second)
+		if timedOut {
+			hangReported = true
+			v.GotTrace, v.GotErr = host.Trace, err
+			v.Clause = "no-termination"
+			n := len(host.Trace)
+			if n > 30 {
+				n = 30
+			}
+			v.Detail = fmt.Sprintf("the model finishes this program within %d steps; anko was still running it after 30 s (first probe entries: %v)", ModelBudget, host.Trace[:n])
+			return v
+		}
+	}
 	v.GotTrace, v.GotErr, v.GotValue = host.Trace, err, val
 	if hp, ok := ank.IsHostPanic(err); ok {
 		v.Clause = "host-panic"
